@@ -46,7 +46,7 @@ Definition deb_ctor (s : str) : res deb :=
 (* Version.__str__ *)
 Definition deb_str (v : deb) : str :=
   (if N.eqb (d_epoch v) 0 then d_upstream v else str_of_N (d_epoch v) ++ c_col :: d_upstream v)
-  ++ (if eqs (d_revision v) [c_0] then [] else c_hyp :: d_revision v).
+  ++ (if negb (eqs (d_revision v) [c_0]) || mem_c c_hyp (d_upstream v) then c_hyp :: d_revision v else []).
 
 (* characters_order, transcribed from /repo: rank of a character, None when it is not in the table *)
 Definition deb_rank (c : ascii) : option nat :=
